@@ -13,14 +13,15 @@ for s in seeds:
     if subprocess.call(["git", "-C", "/repo", "apply", patch]) != 0:
         print(s, "patch does not apply"); continue
     try:
-        p = subprocess.run([os.path.join(V, "check"), s, "--tier", "quick"], cwd=V, stdout=subprocess.PIPE, stderr=subprocess.STDOUT, universal_newlines=True, timeout=3000)
+        pid = s[:3]
+        p = subprocess.run([os.path.join(V, "check"), pid, "--tier", "quick"], cwd=V, stdout=subprocess.PIPE, stderr=subprocess.STDOUT, universal_newlines=True, timeout=3000)
         fired = "VIOLATION" in p.stdout
         first = [l for l in p.stdout.splitlines() if "violation:" in l or "broken:" in l][:1]
         res[s] = fired
-        print("%s: check %s -> %s  %s" % (s, s, "CAUGHT" if fired else "MISSED", (first[0][:220] if first else "")))
+        print("%s: check %s -> %s  %s" % (s, pid, "CAUGHT" if fired else "MISSED", (first[0][:220] if first else "")))
     finally:
         subprocess.call(["git", "-C", "/repo", "checkout", "--", "."])
         # evidence/<id>.json must describe the unchanged tree: re-run the check there
-        subprocess.run([os.path.join(V, "check"), s, "--tier", "quick"], cwd=V, stdout=subprocess.DEVNULL, stderr=subprocess.DEVNULL)
+        subprocess.run([os.path.join(V, "check"), s[:3], "--tier", "quick"], cwd=V, stdout=subprocess.DEVNULL, stderr=subprocess.DEVNULL)
 subprocess.call([sys.executable, os.path.join(V, "tools", "gen_all.py")], stdout=subprocess.DEVNULL)   # regenerate coq/gen from the restored tree
 print(json.dumps(res))
